@@ -157,17 +157,62 @@ def has_direct_effects(func_node: ast.AST) -> bool:
     return False
 
 
-def comprehensionise(stmts: List[ast.stmt]) -> List[ast.stmt]:
+def comprehensionise(stmts: List[ast.stmt], _loads: Optional[Dict[str, int]] = None) -> List[ast.stmt]:
     """X = set() / [] / {} followed (next statement) by a loop nest whose only effect is X.add(E) / X.append(E) / X[K] = V,
     possibly under `if`s, is the comprehension {E for ... if ...}: rewrite it, so that an accumulator loop and the
     comprehension a refactoring turns it into have the same description."""
     out: List[ast.stmt] = []
     i = 0
     stmts = list(stmts)
+    if _loads is None:
+        _loads = {}
+        for s_ in stmts:
+            for n in ast.walk(s_):
+                if isinstance(n, ast.Name) and isinstance(n.ctx, ast.Load):
+                    _loads[n.id] = _loads.get(n.id, 0) + 1
+
+    def loads_in(node) -> Dict[str, int]:
+        d: Dict[str, int] = {}
+        for n in ast.walk(node):
+            if isinstance(n, ast.Name) and isinstance(n.ctx, ast.Load):
+                d[n.id] = d.get(n.id, 0) + 1
+        return d
+
+    def strip_locals(loop: ast.For) -> ast.For:
+        """for x in X: a = f(x); b = g(x); <leaf using a, b>   ->   for x in X: <leaf with a, b substituted>, when a and b
+        are not read outside the loop"""
+        cur = loop
+        body = list(cur.body)
+        k = 0
+        env: Dict[str, ast.AST] = {}
+        while k < len(body) - 1 and isinstance(body[k], ast.Assign) and len(body[k].targets) == 1 and isinstance(body[k].targets[0], ast.Name) and \
+                isinstance(body[k].value, SUBSTITUTABLE):
+            env[body[k].targets[0].id] = subst(body[k].value, env)
+            k += 1
+        if k == 0 or k != len(body) - 1:
+            if len(body) == 1 and isinstance(body[0], ast.For):
+                inner = strip_locals(body[0])
+                if inner is not body[0]:
+                    new = copy.copy(cur)
+                    new.body = [inner]
+                    return new
+            return loop
+        inside = loads_in(loop)
+        if any(_loads.get(nm, 0) - inside.get(nm, 0) > 0 for nm in env):
+            return loop
+        leaf = body[-1]
+        if any(isinstance(n, ast.Name) and isinstance(n.ctx, ast.Store) and n.id in env for n in ast.walk(leaf)):
+            return loop
+        new = copy.copy(cur)
+        new.body = [_tuple_index_simplify(subst(leaf, env))]
+        ast.fix_missing_locations(new)
+        return new
+
     while i < len(stmts):
         st = stmts[i]
         done = False
         if isinstance(st, ast.Assign) and len(st.targets) == 1 and isinstance(st.targets[0], ast.Name) and i + 1 < len(stmts) and isinstance(stmts[i + 1], ast.For):
+            stmts[i + 1] = strip_locals(stmts[i + 1])
             nm = st.targets[0].id
             v = st.value
             kind = None
@@ -216,7 +261,7 @@ def comprehensionise(stmts: List[ast.stmt]) -> List[ast.stmt]:
                 st2 = copy.copy(st)
                 for fld in ("body", "orelse", "finalbody"):
                     if getattr(st2, fld, None):
-                        setattr(st2, fld, comprehensionise(getattr(st2, fld)))
+                        setattr(st2, fld, comprehensionise(getattr(st2, fld), _loads))
             out.append(st2)
             i += 1
     return out
@@ -523,6 +568,7 @@ class Extractor:
             self.order += 1
             eff = Effect(k, c, list(ctx), args, target=target, func=self.cur.func, order=self.order)
             eff.builders = self.cur.builders
+            eff.fn_body = self.cur.body
             self.effects.append(eff)
 
     def _try_inline(self, call: ast.Call, ctx, env) -> Optional[Dict[str, ast.AST]]:
@@ -634,6 +680,7 @@ class Extractor:
                             eff = Effect("flag", st, list(ctx), {"index": self._expr(t.slice, env), "value": self._expr(st.value, env)},
                                          target=base[5:], func=self.cur.func, order=self.order)
                             eff.builders = self.cur.builders
+                            eff.fn_body = self.cur.body
                             self.effects.append(eff)
                         if base.startswith("self.") and base in env:
                             env = {k: v for k, v in env.items() if k != base}
@@ -850,9 +897,26 @@ class ComprehensionEdges(ast.NodeTransformer):
     visit_DictComp = _comp
 
 
+class _IterListToSet(ast.NodeTransformer):
+    def _comp(self, node):
+        node = self.generic_visit(node)
+        for g in node.generators:
+            if isinstance(g.iter, ast.ListComp):
+                g.iter = ast.SetComp(elt=g.iter.elt, generators=g.iter.generators)
+            elif isinstance(g.iter, ast.Call) and isinstance(g.iter.func, ast.Name) and g.iter.func.id in ("list", "set", "sorted", "tuple") and \
+                    len(g.iter.args) == 1 and not g.iter.keywords and isinstance(g.iter.args[0], (ast.GeneratorExp, ast.ListComp, ast.SetComp)):
+                g.iter = ast.SetComp(elt=g.iter.args[0].elt, generators=g.iter.args[0].generators)
+        return node
+    visit_GeneratorExp = _comp
+    visit_ListComp = _comp
+    visit_SetComp = _comp
+    visit_DictComp = _comp
+
+
 def canon_expr(e: ast.AST) -> ast.AST:
     """value-level canonical form shared by the rules: edge-attribute idioms, dict.get idiom, comprehension variables"""
     x = copy.deepcopy(e)
+    x = _IterListToSet().visit(x)
     x = ComprehensionEdges().visit(x)
     x = EdgeAttrCanon({}).visit(x)
     x = GetCanon().visit(x)
@@ -1275,7 +1339,8 @@ def canon_effect(eff: Effect, var_names: Set[str]) -> Dict[str, object]:
         nm = todo.pop(0)
         if nm in defs:
             continue
-        defs[nm] = [builder_text(eff.func.node, st) for _, st in sorted(builders[nm], key=lambda x: x[0])]
+        defs[nm] = builder_parts(ast.Module(body=getattr(eff, "fn_body", None) or eff.func.node.body, type_ignores=[]), nm,
+                                 [st for _, st in sorted(builders[nm], key=lambda x: x[0])])
         for txt in defs[nm]:
             for other in builders:
                 if other not in defs and other not in todo and re.search(r"(?<![\w.])" + re.escape(other) + r"(?!\w)", txt):
@@ -1293,6 +1358,138 @@ def canon_effect(eff: Effect, var_names: Set[str]) -> Dict[str, object]:
         cases.append((B.mk_and([gf, extra]), pl))
     out["_cases"] = cases
     return out
+
+
+def _chain_of(func_node: ast.AST, st: ast.stmt) -> Optional[List[Tuple[str, ast.AST, bool]]]:
+    """enclosing For / While / If (with polarity) of a statement, outermost first"""
+    found: List[Tuple[str, ast.AST, bool]] = []
+
+    def find(stmts, acc) -> bool:
+        for s_ in stmts:
+            if s_ is st:
+                found.extend(acc)
+                return True
+            if isinstance(s_, ast.If):
+                if find(s_.body, acc + [("if", s_, True)]) or find(s_.orelse, acc + [("if", s_, False)]):
+                    return True
+            elif isinstance(s_, (ast.For, ast.AsyncFor)):
+                if find(s_.body, acc + [("for", s_, True)]):
+                    return True
+            elif isinstance(s_, ast.While):
+                if find(s_.body, acc + [("while", s_, True)]):
+                    return True
+            elif isinstance(s_, (ast.With, ast.Try)):
+                for blk in ([s_.body] + ([h.body for h in s_.handlers] + [s_.orelse, s_.finalbody] if isinstance(s_, ast.Try) else [])):
+                    if find(blk, acc):
+                        return True
+        return False
+    return found if find(func_node.body, []) else None
+
+
+def canon_comp_text(comp: ast.AST) -> str:
+    """canonical text of a comprehension: canon_expr + the filter of every generator as one propositional normal form"""
+    from . import boolnf as B
+    x = canon_expr(comp)
+    for n in ast.walk(x):
+        if isinstance(n, (ast.GeneratorExp, ast.ListComp, ast.SetComp, ast.DictComp)):
+            for g in n.generators:
+                if g.ifs:
+                    f = B.mk_and([B.parse(c) for c in g.ifs])
+                    g.ifs = [] if f == B.T else [ast.Name(id="<" + B.key(f) + ">", ctx=ast.Load())]
+    return norm(x)
+
+
+def builder_parts(func_node: ast.AST, name: str, stmts: List[ast.stmt]) -> List[str]:
+    """How a local collection that is built up by in-place mutation gets its contents, as a sorted list of canonical
+    parts: `init <value>`, `{E for ... if ...}` for every add / append under loops and tests (relative to the block that
+    contains all building statements), `union <value>` for update / |=.  Loop-local scalars are substituted; an
+    accumulator loop and the comprehension it can be rewritten to give the same parts."""
+    from . import boolnf as B
+    chains = [(_chain_of(func_node, st) or []) for st in stmts]
+    common = 0
+    if chains:
+        while all(len(c) > common for c in chains) and len({id(c[common][1]) for c in chains}) == 1 and len({c[common][2] for c in chains}) == 1:
+            common += 1
+    # syntactically single-definition scalars of the function (substituted into elements and tests)
+    counts: Dict[str, int] = {}
+    vals: Dict[str, ast.AST] = {}
+    for n in walk_no_nested(func_node):
+        if isinstance(n, ast.Assign):
+            for t in n.targets:
+                for x in ast.walk(t):
+                    if isinstance(x, ast.Name) and isinstance(x.ctx, ast.Store):
+                        counts[x.id] = counts.get(x.id, 0) + 1
+                        if isinstance(t, ast.Name):
+                            vals[x.id] = n.value
+        elif isinstance(n, (ast.AugAssign, ast.For, ast.comprehension, ast.With)):
+            for x in ast.walk(n.target if hasattr(n, "target") else n):
+                if isinstance(x, ast.Name) and isinstance(getattr(x, "ctx", None), ast.Store):
+                    counts[x.id] = counts.get(x.id, 0) + 2
+    mutated = set()
+    for n in walk_no_nested(func_node):
+        if isinstance(n, ast.Call) and isinstance(n.func, ast.Attribute) and isinstance(n.func.value, ast.Name) and \
+                n.func.attr in ("add", "append", "extend", "update", "insert", "remove", "discard", "pop", "clear", "setdefault"):
+            mutated.add(n.func.value.id)
+    env = {k: v for k, v in vals.items() if counts.get(k) == 1 and k not in mutated and k != name}
+
+    def S(e: ast.AST) -> ast.AST:
+        x = e
+        for _ in range(3):
+            x = subst(x, env)
+        return _tuple_index_simplify(x)
+
+    parts: List[str] = []
+    for st, chain in zip(stmts, chains):
+        rel = chain[common:]
+        gens: List[ast.comprehension] = []
+        pre: List[ast.AST] = []
+        for kind, node, pol in rel:
+            if kind == "for":
+                gens.append(ast.comprehension(target=node.target, iter=S(node.iter), ifs=[], is_async=0))
+            else:
+                t = S(node.test)
+                t = t if pol else ast.UnaryOp(op=ast.Not(), operand=t)
+                (gens[-1].ifs if gens else pre).append(t)
+        if gens and pre:
+            gens[0].ifs = pre + gens[0].ifs
+            pre = []
+        guard = ""
+        if pre:
+            guard = " if " + B.key(B.mk_and([B.parse(canon_expr(t)) for t in pre]))
+
+        def comp_of(elt):
+            if not gens:
+                return norm(canon_expr(S(elt))) + guard
+            return canon_comp_text(ast.SetComp(elt=S(elt), generators=gens))
+        if isinstance(st, ast.Assign) and any(isinstance(t, ast.Name) and t.id == name for t in st.targets):
+            v = st.value
+            if isinstance(v, ast.Call) and isinstance(v.func, ast.Name) and v.func.id in ("set", "list", "frozenset", "tuple") and len(v.args) == 1 and \
+                    isinstance(v.args[0], (ast.GeneratorExp, ast.ListComp, ast.SetComp)):
+                v = ast.SetComp(elt=v.args[0].elt, generators=v.args[0].generators)
+            elif isinstance(v, ast.ListComp):
+                v = ast.SetComp(elt=v.elt, generators=v.generators)
+            empty = (isinstance(v, ast.Call) and isinstance(v.func, ast.Name) and v.func.id in ("set", "list", "dict") and not v.args) or \
+                (isinstance(v, (ast.List, ast.Tuple)) and not v.elts) or (isinstance(v, ast.Dict) and not v.keys)
+            if empty:
+                continue
+            txt = canon_comp_text(S(v)) if isinstance(v, (ast.SetComp, ast.DictComp)) else norm(canon_expr(S(v)))
+            parts.append(("init " if not gens else "reset ") + txt + guard)
+        elif isinstance(st, ast.Expr) and isinstance(st.value, ast.Call) and isinstance(st.value.func, ast.Attribute) and len(st.value.args) == 1 and \
+                st.value.func.attr in ("add", "append"):
+            parts.append(comp_of(st.value.args[0]))
+        elif isinstance(st, ast.Expr) and isinstance(st.value, ast.Call) and isinstance(st.value.func, ast.Attribute) and len(st.value.args) == 1 and \
+                st.value.func.attr in ("update", "extend"):
+            parts.append("union " + comp_of(st.value.args[0]))
+        elif isinstance(st, ast.AugAssign) and isinstance(st.op, (ast.BitOr, ast.Add)):
+            parts.append("union " + comp_of(st.value))
+        elif isinstance(st, ast.Assign) and any(isinstance(t, ast.Subscript) for t in st.targets):
+            t = [t for t in st.targets if isinstance(t, ast.Subscript)][0]
+            parts.append("item " + comp_of(ast.Tuple(elts=[t.slice, st.value], ctx=ast.Load())))
+        else:
+            parts.append("stmt " + " : ".join([("for " + norm(n.target) + " in " + canon_iter(n.iter)) if k == "for" else ("if " + canon_guard(n.test, p_)) for k, n, p_ in rel] + [norm(st)]))
+    # an `init {comprehension}` is the same as the parts of the loop it abbreviates
+    parts = [p_[5:] if p_.startswith("init {") or p_.startswith("init [") else p_ for p_ in parts]
+    return sorted(parts)
 
 
 def builder_text(func_node: ast.AST, st: ast.stmt) -> str:
@@ -1433,6 +1630,11 @@ def _rename_comprehensions(e: ast.AST) -> ast.AST:
                     mapping[x.id] = f"b{nm}_{jx}"
                 tgt = Renamer(mapping).visit(copy.deepcopy(g.target))
                 ifs = [process(Renamer(mapping).visit(copy.deepcopy(c)), cur_used) for c in g.ifs]
+                if ifs and not (len(ifs) == 1 and isinstance(ifs[0], ast.Name) and ifs[0].id.startswith("<")):
+                    # the filter as one propositional normal form (tautologies vanish, order / De Morgan do not matter)
+                    from . import boolnf as _B
+                    f_ = _B.mk_and([_B.parse(c) for c in ifs])
+                    ifs = [] if f_ == _B.T else [ast.Name(id="<" + _B.key(f_) + ">", ctx=ast.Load())]
                 new_gens.append(ast.comprehension(target=tgt, iter=it, ifs=ifs, is_async=g.is_async))
             node = copy.copy(node)
             node.generators = new_gens
